@@ -776,6 +776,14 @@ func (rs *s3ClientStorage) CopyObject(ctx context.Context, srcBucket storage.Buc
 		if opts.Metadata != nil {
 			input.WebsiteRedirectLocation = opts.Metadata.WebsiteRedirectLocation
 		}
+		if opts.ReplaceTags {
+			values := url.Values{}
+			for k, v := range opts.Tags {
+				values.Set(k, v)
+			}
+			input.TaggingDirective = types.TaggingDirectiveReplace
+			input.Tagging = aws.String(values.Encode())
+		}
 		if opts.StorageClass != nil {
 			input.StorageClass = types.StorageClass(*opts.StorageClass)
 		}
